@@ -19,8 +19,8 @@ from vf import common, harness
 from vf.common import Tally
 from vf.families import weights as wf
 from vf.pysym import api
-from vf.pysym.explore import Return, Raise, Unsup
-from vf.pysym.values import SStr
+from vf.pysym.explore import Return, Raise, Unsup, SymRaise
+from vf.pysym.values import SStr, SInt, Sym, Unsupported
 from vf.props import C12
 from vf.ref import dsl
 from vf.replay import enc
@@ -210,6 +210,15 @@ def alignment_programs():
         out.append(Program(name="al", body=Ret(groups, 0), salt=None, splitters=("uid",)))
         body = If(((Cmp(Id("f"), "==", Lit(1)), Ret(groups, 0)),), Ret(tuple(reversed(groups)), 1))
         out.append(Program(name="al2", body=body, salt="s", splitters=("uid",)))
+    # every two-digit percentage split and a few three-digit / above-one ones: decimals whose product with a power of
+    # ten is not the integer it looks like (0.29 * 100 = 28.999999999999996) are where a generator that rescales or
+    # re-derives the weights goes wrong
+    extra = [("0.%02d" % d, "0.%02d" % (100 - d)) for d in range(1, 100)]
+    extra += [("1.15", "1.85"), ("0.58", "0.14", "0.28"), ("0.001", "0.999"), ("0.035", "0.965"), ("0.145", "0.855"),
+              ("2.675", "1.005", "0.32"), ("4.35", "0.65"), ("8.7", "1.3"), ("0.7", "0.1", "0.2")]
+    for ws in extra:
+        groups = tuple(Group(Lit("pqrs"[i]), wf.value_of(w, False), w) for i, w in enumerate(ws))
+        out.append(Program(name="al", body=Ret(groups, 0), salt=None, splitters=("uid",)))
     return out
 
 
@@ -253,14 +262,118 @@ def check_alignment(item):
               all(isinstance(a, (int, float)) and not isinstance(a, bool) and a == b for a, b in zip(w, want_w)))
         out["reach"] += 1
         if not ok:
+            # the choice function is handed something else than the declared lists (running totals computed at
+            # generation time, a tuple, a repeated population ...): that is only a defect if it selects differently.
+            # Decide it on the real choice function: all hash positions, emitted arguments, against the exact partition
+            # of the DECLARED weights (one grid point of tolerance at each boundary, as everywhere in C03)
             allf = dict(fields)
             allf["uid"] = "u"
-            out["witnesses"].append({"kind": "aligned_lists", "text": text, "fields": {k: enc(v) for k, v in allf.items()},
-                                     "population": enc(want_pop), "weights": enc(want_w),
-                                     "why": "population/weights of return #%d are not the declared lists: %r / %r" % (lab, pop, w),
-                                     "plain": ""})
+            texts_ = [g.weight_text for g in ref.groups]
+            semantic_alignment(out, tally, timeout_ms, text, allf, lab, ch, want_pop, texts_)
     out["tally"] = tally
     return out
+
+
+def _short(v):
+    r = repr(v)
+    return r if len(r) <= 90 else r[:60] + " ... " + r[-20:] + " (%d items)" % len(v)
+
+
+def _concrete_seq(v):
+    return isinstance(v, (list, tuple)) and not any(isinstance(e, Sym) for e in v)
+
+
+def semantic_alignment(out, tally, timeout_ms, text, fields, lab, ch, want_pop, texts):
+    pop, w, cw = ch.population, ch.weights, ch.cum_weights
+    if not _concrete_seq(pop) or (w is not None and not _concrete_seq(w)) or (cw is not None and not _concrete_seq(cw)):
+        out["status"] = "inconclusive"
+        out["note"] = "choice arguments of return #%d are not concrete sequences" % lab
+        return
+    K = wf.boundaries(texts)
+    run = run_choice(IdxLabels(pop), w, cw)
+    out["paths"] += len(run.paths)
+    out["encoded"].update(run.encoded_digest())
+    for p in run.paths:
+        if isinstance(p.outcome, Unsup):
+            r, m = common.check(tally, p.conds, timeout_ms)
+            if r != "unsat":
+                out["status"] = "inconclusive"
+                out["note"] = "emitted choice arguments: " + p.outcome.reason
+            continue
+        ks = [v for t, v in p.recorded if t == "pos_k"]
+        if len(ks) != 1:
+            r, m = common.check(tally, p.conds, timeout_ms)
+            if r != "unsat":
+                out["status"] = "inconclusive"
+                out["note"] = "emitted choice arguments: %d hash positions on a path" % len(ks)
+            continue
+        k = ks[0]
+        if isinstance(p.outcome, Raise):
+            extra = []
+            why = "the choice over the emitted arguments raises %s" % p.outcome.exc_name
+        else:
+            idx = p.outcome.value
+            if not (isinstance(idx, tuple) and len(idx) == 2 and idx[0] == "label-at" and isinstance(idx[1], int)
+                    and 0 <= idx[1] < len(pop)):
+                out["status"] = "inconclusive"
+                out["note"] = "emitted choice arguments: unexpected outcome %r" % (idx,)
+                continue
+            label = pop[idx[1]]
+            owners = [i for i, v in enumerate(want_pop) if type(v) is type(label) and v == label and wf.exact(texts[i]) > 0]
+            def inside(i):
+                lo, hi = max(K[i] - 1, 0), min(K[i + 1], MAXK)
+                return z3.And(z3.UGE(k, z3.BitVecVal(lo, 32)), z3.ULE(k, z3.BitVecVal(hi, 32)))
+            extra = [z3.Not(z3.Or(*[inside(i) for i in owners]))] if owners else []
+            why = "emitted arguments select %r outside the interval the declared weights give it" % (label,)
+        r, m = common.check(tally, list(p.conds) + extra, timeout_ms, label="C03 emitted choice arguments vs declared partition",
+                            keep_sample=True)
+        if r == "unknown":
+            out["status"] = "inconclusive"
+            out["note"] = "unknown on emitted-arguments query"
+        elif r == "sat":
+            kv = m.eval(k, model_completion=True).as_long()
+            allowed = [want_pop[i] for i in allowed_indices(K, texts, kv)]
+            out["witnesses"].append({"kind": "program_position", "text": text, "fields": {a: enc(b) for a, b in fields.items()},
+                                     "position_k": kv, "allowed": enc(allowed),
+                                     "why": "return #%d: %s (population %s weights %s cum_weights %s)" % (
+                                         lab, why, _short(pop), _short(w), _short(cw)),
+                                     "plain": "hash position k=%d" % kv})
+            return
+
+
+class IdxLabels:
+    """the emitted population: subscripting reports the position (labels may repeat)"""
+    pysym_pytype = list
+
+    def __init__(self, pop):
+        self.pop = pop
+        if isinstance(pop, tuple):
+            self.pysym_pytype = tuple
+
+    def pysym_len(self, ctx):
+        return len(self.pop)
+
+    def pysym_getitem(self, ctx, idx):
+        n = len(self.pop)
+        if isinstance(idx, SInt):
+            # symbolic position (unweighted path): fork per DISTINCT label, plus the out-of-range case
+            firsts = []
+            for j, v in enumerate(self.pop):
+                if not any(type(self.pop[f]) is type(v) and self.pop[f] == v for f in firsts):
+                    firsts.append(j)
+            c = ctx.choose(len(firsts) + 1, label="emitted population subscript")
+            if c == len(firsts):
+                ctx.assume(z3.Or(idx.term < -n, idx.term >= n))
+                raise SymRaise(IndexError("list index out of range"))
+            f = firsts[c]
+            same = [j for j, v in enumerate(self.pop) if type(v) is type(self.pop[f]) and v == self.pop[f]]
+            ctx.assume(z3.Or(*[z3.Or(idx.term == j, idx.term == j - n) for j in same]))
+            return ("label-at", f)
+        if isinstance(idx, Sym) or isinstance(idx, bool) or not isinstance(idx, int):
+            raise Unsupported("subscript of the emitted population with %s" % type(idx).__name__)
+        if not -n <= idx < n:
+            raise SymRaise(IndexError("list index out of range"))
+        return ("label-at", idx % n)
 
 
 def proba_real(ctx, interp, args, kwargs):
